@@ -9,6 +9,7 @@
   `step_inv` — one event preserves the invariant (or the model's fixed fuel ran out).
 -/
 import NemoVerif.Lemmas.V1Struct
+import NemoVerif.Models.V1Ref
 namespace NemoVerif.V1Follow
 open NemoVerif.V1Interp NemoVerif.V1Struct
 
@@ -37,13 +38,6 @@ structure SS where
   pos : SPos
   dec : List Decision
   deriving Repr
-
-def ctxDec (upd : Ctx) : List Decision := if upd.isEmpty then [] else [Decision.ctx upd]
-
-/-- the decision a step statement stands for: its element's event if the element is actionable
-    (`bot x` ↦ BotIntent x, `execute a` ↦ StartInternalSystemAction a; `user`, `do`, `bot ...` ↦ nothing) -/
-def stepDec (s : Step) : List Decision :=
-  if isActionable (elemOf s) then (stepToEvent (elemOf s)).toList else []
 
 def outcomeSS (p : Prog) : Out → Option SS
   | .atStep st a' => match stepAt p a' with
